@@ -62,7 +62,7 @@ Definition a_pad (padn : nat) (ks : list key) (ast : list (key * nat)) : list (k
 Definition rkey (rl : row * lod) : key := key_of (fst rl).
 
 Section Abs.
-  Variable fixed : bool.
+  Variable fixed : fixes.
   Variable by_ : list Z.
   Variable by_s : bool.
   Variable desired : Z.
@@ -102,7 +102,7 @@ Section Abs.
   Qed.
 
   Lemma abs_pad : forall sel prs st,
-    abs (pad_unused fixed sel prs st) = a_pad (if fixed then length sel else 1%nat) (map rkey prs) (abs st).
+    abs (pad_unused fixed sel prs st) = a_pad (if f_pad fixed then length sel else 1%nat) (map rkey prs) (abs st).
   Proof.
     intros sel prs st; unfold abs, pad_unused, a_pad; rewrite !map_map. apply map_ext; intros o.
     assert (E : existsb (fun rl => key_eqb (key_of (o_row o)) (key_of (fst rl))) prs =
@@ -111,7 +111,7 @@ Section Abs.
     rewrite E. remember (existsb (key_eqb (fst (absO o))) (map rkey prs)) as b eqn:Hb. clear Hb E.
     destruct b; [reflexivity|].
     unfold absO, okey. cbn [o_row o_data fst snd]. rewrite app_length.
-    destruct fixed; cbn [length]; rewrite ?repeat_length; reflexivity.
+    destruct (f_pad fixed); cbn [length]; rewrite ?repeat_length; reflexivity.
   Qed.
 End Abs.
 
